@@ -77,18 +77,29 @@ Inductive event :=
 
 Record mem := { heap : list buf; statics : list (list N);
                 orc : N -> N -> bool  (* k-th request, of this size, refused? *);
-                nreq : N; log : list event (* newest first *) }.
+                nreq : N; log : list event (* newest first *);
+                ext : N -> N  (* references held OUTSIDE this world (by other threads) as seen by the atomic event
+                                 that is the k-th event of the log: what it adds to the count that event reads.  The
+                                 sequential world is [ext = fun _ => 0] ([quiet]). *) }.
 
 Inductive ub := UUseAfterFree | UOob | UBadSize | UDoubleFree | UStaticWrite | UNoBuf | UUnreachable.
 Inductive out (R : Type) := OVal (r : R) | OUb (u : ub).
 Arguments OVal {R}. Arguments OUb {R}.
 
 Definition set_buf (m : mem) (b : bufid) (x : buf) (e : event) : mem :=
-  {| heap := upd (heap m) b x; statics := statics m; orc := orc m; nreq := nreq m; log := e :: log m |}.
+  {| heap := upd (heap m) b x; statics := statics m; orc := orc m; nreq := nreq m; log := e :: log m; ext := ext m |}.
 Definition logm (m : mem) (e : event) : mem :=
-  {| heap := heap m; statics := statics m; orc := orc m; nreq := nreq m; log := e :: log m |}.
+  {| heap := heap m; statics := statics m; orc := orc m; nreq := nreq m; log := e :: log m; ext := ext m |}.
 
 Definition in_bounds (off n : N) (d : list N) : bool := off + n <=? len d.
+
+(* What the next atomic event sees of the references held outside this world. *)
+Definition ext_now (m : mem) : N := ext m (len (log m)).
+Definition quiet (m : mem) : Prop := forall k, ext m k = 0.
+(* A decrement that gives up this world's last reference while foreign references remain does not free the buffer, but
+   from then on the buffer belongs to its foreign owners (who may free it at any time): it is gone from this world's
+   view, and any later access through this world would be a use after free. *)
+Definition rmw_live (add : bool) (own e : N) : bool := add || negb ((own =? 1) && negb (e =? 0)).
 
 Fixpoint run {R} (c : cmd R) (m : mem) : out R * mem :=
   match c with
@@ -97,13 +108,13 @@ Fixpoint run {R} (c : cmd R) (m : mem) : out R * mem :=
   | Alloc n k =>
       if orc m (nreq m) n then
         run (k None) {| heap := heap m; statics := statics m; orc := orc m; nreq := nreq m + 1;
-                        log := EAlloc n None :: log m |}
+                        log := EAlloc n None :: log m; ext := ext m |}
       else
         let b := length (heap m) in
         run (k (Some b))
             {| heap := heap m ++ [ {| live := true; asize := n; count := 0; cap := 0;
                                       data := repeat POISON (N.to_nat (n - HDR)) |} ];
-               statics := statics m; orc := orc m; nreq := nreq m + 1; log := EAlloc n (Some b) :: log m |}
+               statics := statics m; orc := orc m; nreq := nreq m + 1; log := EAlloc n (Some b) :: log m; ext := ext m |}
   | Realloc b old new k =>
       match nth_error (heap m) b with
       | None => (OUb UNoBuf, m)
@@ -112,13 +123,13 @@ Fixpoint run {R} (c : cmd R) (m : mem) : out R * mem :=
           if negb (old =? asize x) then (OUb UBadSize, m) else
           if orc m (nreq m) new then
             run (k false) {| heap := heap m; statics := statics m; orc := orc m; nreq := nreq m + 1;
-                             log := ERealloc b old new false :: log m |}
+                             log := ERealloc b old new false :: log m; ext := ext m |}
           else
             let n' := N.to_nat (new - HDR) in
             let d' := firstn n' (data x) ++ repeat POISON (n' - length (data x)) in
             run (k true) {| heap := upd (heap m) b {| live := true; asize := new; count := count x; cap := cap x; data := d' |};
                             statics := statics m; orc := orc m; nreq := nreq m + 1;
-                            log := ERealloc b old new true :: log m |}
+                            log := ERealloc b old new true :: log m; ext := ext m |}
       end
   | Dealloc b n k =>
       match nth_error (heap m) b with
@@ -144,14 +155,16 @@ Fixpoint run {R} (c : cmd R) (m : mem) : out R * mem :=
       match nth_error (heap m) b with
       | None => (OUb UNoBuf, m)
       | Some x => if negb (live x) then (OUb UUseAfterFree, m) else
-          run (k (count x)) (set_buf m b {| live := true; asize := asize x;
-                                            count := if add then count x + 1 else count x - 1;
-                                            cap := cap x; data := data x |} (ERmw b add o (count x)))
+          let e := ext_now m in
+          run (k (count x + e)) (set_buf m b {| live := rmw_live add (count x) e; asize := asize x;
+                                                count := if add then count x + 1 else count x - 1;
+                                                cap := cap x; data := data x |} (ERmw b add o (count x + e)))
       end
   | Load b o k =>
       match nth_error (heap m) b with
       | None => (OUb UNoBuf, m)
-      | Some x => if negb (live x) then (OUb UUseAfterFree, m) else run (k (count x)) (logm m (ELoad b o (count x)))
+      | Some x => if negb (live x) then (OUb UUseAfterFree, m) else
+          let e := ext_now m in run (k (count x + e)) (logm m (ELoad b o (count x + e)))
       end
   | Fence o k => run k (logm m (EFence o))
   | Read (PHeap b) off n k =>
